@@ -222,4 +222,235 @@ theorem writerRun_life (m : M) (w : WriteJob) (h : Life m.1) : Life (writerRun m
     | exact handlePieceWriteDone_life _ _ _ h
     | exact handlePieceWriteDone_life _ _ _ (h.congr (by lframe))
 
+/-! ### workers, handle, step -/
+
+theorem Life.running_of_peer' {s : St} (h : Life s) {k : Nat} (hk : ¬(s.findPeer k).isNone = true) : Running s :=
+  h.running_of_peer (k := k) (by cases hf : s.findPeer k <;> simp_all)
+
+theorem runWorkers_life (fuel : Nat) (m : M) (h : Life m.1) : Life (runWorkers fuel m).1 := by
+  induction fuel generalizing m with
+  | zero => exact h
+  | succ n ih =>
+    unfold runWorkers
+    dsimp only
+    split
+    · exact h
+    · split
+      · next hs => exact ih _ (handleStopped_life m h hs)
+      · split
+        · next ha =>
+          simp only [Bool.and_eq_true] at ha
+          exact ih _ (allocatorRun_life m h ha.1)
+        · split
+          · next hv =>
+            simp only [Bool.and_eq_true] at hv
+            exact ih _ (handleVerificationDone_life m h hv.1)
+          · split
+            · split
+              · exact ih _ (writerRun_life m _ h)
+              · exact h
+            · exact h
+
+theorem mutate_life (s : St) (f : Option Nat) (how : Mut) (h : Life s) (he : s.errC = false) :
+    Life (mutate s f how) := by
+  obtain ⟨i1, i2, i3, i4, i5, i6, i7, i8⟩ := h.idle (Or.inl he)
+  refine ⟨?_, ?_, ?_, ?_, ?_, ?_, ?_⟩
+  · simpa using h.sa
+  · simpa using h.idle
+  · simpa using h.leaked
+  · intro hl; simp [i3] at hl
+  · simpa using h.run
+  · simpa using h.ni
+  · simpa using h.ver
+
+theorem handle_life (s : St) (p : Parked) (kn : Nat → Bool) (op : Op) (h : Life s) :
+    Life (handle s p kn op).1.1 := by
+  unfold handle
+  split
+  · exact start_life (s, []) h
+  · simp only [onSt_fst]; exact (stop_life s false h).congr (by lframe)
+  · simp only [onSt_fst]
+    exact (handleVerifyCommand_life ({ s with persisted := none }, []) (h.congr (by lframe))).congr (by lframe)
+  · exact h
+  · exact h.congr (by lframe)
+  · split <;> exact h.congr (by lframe)
+  · split
+    · exact h
+    · next hg =>
+      simp only [Bool.or_eq_true, not_or, Bool.not_eq_true] at hg
+      exact mutate_life s _ _ h hg.2
+  · split
+    · exact h
+    · split
+      · exact h
+      · next ha =>
+        have hr := h.running_of_acceptor (by simpa using ha)
+        split
+        next heq =>
+        have hm := congrArg Prod.fst heq
+        simp only at hm
+        rw [← hm]
+        exact acceptPeer_life (s, []) _ _ _ _ _ _ h hr
+  · split
+    · exact h
+    · next hk =>
+      have hr := h.running_of_peer' hk
+      repeat' split
+      all_goals first
+        | exact h
+        | exact handlePieceMessage_life (s, []) _ _ _ _ _ h hr
+  · split
+    · exact h
+    · next hk => exact handlePeerMessage_life (s, []) _ _ h (h.running_of_peer' hk)
+  · split
+    · exact h
+    · next hk => exact handleExtHandshake_life (s, []) _ _ _ _ h (h.running_of_peer' hk)
+  · split
+    · exact h
+    · next hk => exact handleMetadataData_life (s, []) _ _ _ _ h (h.running_of_peer' hk)
+  · split
+    · exact h
+    · next hk => exact handleMetadataReject_life (s, []) _ h (h.running_of_peer' hk)
+  · repeat' split
+    all_goals exact h
+  · split
+    · exact h
+    · exact handlePex_life (s, []) _ _ h
+  · exact handleDhtPeers_life (s, []) _ h
+  · split
+    · exact h
+    · next hk => exact closePeer_life s _ h (h.running_of_peer' hk)
+  · split
+    · exact h
+    · next hk => exact handlePeerSnubbed_life (s, []) _ h (h.running_of_peer' hk)
+
+theorem deliverParked_life (m : M) (p : Parked) (h : Life m.1) : Life (deliverParked m p).1.1 := by
+  unfold deliverParked
+  split
+  · split
+    · split
+      · next hk => exact runWorkers_life _ _ (handlePieceMessage_life _ _ _ _ _ _ h (h.running_of_peer hk))
+      · exact h
+    · exact h
+  · exact h
+
+/-- **The lifecycle invariant is preserved by every event.** -/
+theorem step_life (s : St) (p : Parked) (kn : Nat → Bool) (op : Op) (h : Life s) :
+    Life (step s p kn op).1.st := by
+  unfold step
+  have h0 : Life { s with sto := [], mayStart := [], closedDl := [], mayStartI := false } := h.congr (by lframe)
+  have h1 := runWorkers_life 12 _ (handle_life _ p kn op h0)
+  dsimp only
+  split
+  · exact deliverParked_life _ _ h1
+  · exact h1
+
+/-! ### the implementation's choices -/
+
+theorem foldl_snd_ne_nil {α β γ} (f : β × List γ → α → β × List γ)
+    (hf : ∀ acc a, acc.2 ≠ [] → (f acc a).2 ≠ []) (l : List α) (acc : β × List γ) (h : acc.2 ≠ []) :
+    (l.foldl f acc).2 ≠ [] := by
+  induction l generalizing acc with
+  | nil => exact h
+  | cons a l ih => exact ih _ (hf acc a h)
+
+/-- Outside the downloading status an error-free reconciliation means the implementation runs no download. -/
+theorem reconcile_not_downloading (s : St) (impl : List ImplDl) (hs : s.status ≠ .downloading) (hd : s.dls = [])
+    (he : (reconcile s impl).2 = []) : impl = [] := by
+  cases impl with
+  | nil => rfl
+  | cons a l =>
+    exfalso
+    unfold reconcile at he
+    rw [List.append_eq_nil_iff] at he
+    have h2 := he.2
+    simp only [List.foldl_cons, hd, List.find?_nil] at h2
+    revert h2
+    apply foldl_snd_ne_nil
+    · intro acc x h
+      repeat' split
+      all_goals simp_all
+    · simp [admissibleStart, hs]
+
+theorem reconcile_life (s : St) (impl : List ImplDl) (h : Life s) (he : (reconcile s impl).2 = []) :
+    Life (reconcile s impl).1 := by
+  by_cases hr : Running s
+  · exact h.congrR hr (by lframe)
+  · have hnr : s.errC = false ∨ s.stopAnn = true := by
+      unfold Running at hr
+      cases he : s.errC <;> cases hs : s.stopAnn <;> simp_all
+    obtain ⟨i1, i2, i3, i4, i5, i6, i7, i8⟩ := h.idle hnr
+    have hst : s.status ≠ .downloading := by
+      unfold St.status
+      rcases hnr with h' | h'
+      · simp [h']
+      · cases s.errC <;> simp [h']
+    have := reconcile_not_downloading s impl hst i7 he
+    subst this
+    apply h.congr
+    constructor <;> first | rfl | (simp; done) | simp [reconcile, i6, i7]
+
+theorem reconcileIdl_life (s : St) (impl : List Nat) (h : Life s) : Life (reconcileIdl s impl).1 := by
+  by_cases hr : Running s
+  · exact h.congrR hr (by lframe)
+  · have hnr : s.errC = false ∨ s.stopAnn = true := by
+      unfold Running at hr
+      cases he : s.errC <;> cases hs : s.stopAnn <;> simp_all
+    obtain ⟨i1, i2, i3, i4, i5, i6, i7, i8⟩ := h.idle hnr
+    have hidls : (reconcileIdl s impl).1.idls = [] := by
+      unfold reconcileIdl
+      dsimp only
+      apply foldl_inv (fun acc : List IDl × List String => acc.1 = [])
+      · intro acc k hacc
+        simp [i8, St.findPeer, i6, hacc]
+      · rfl
+    apply h.congr
+    constructor <;> first | rfl | (simp; done) | exact hidls.trans i8.symm
+
+/-- The implementation's choice of piece downloads after event `e` was accepted by `reconcile`
+(otherwise the driver reports a C09 violation and the run is not a run of the model). -/
+def Ev.admissible (sp : St × Parked) (e : Ev) : Prop :=
+  (reconcile (step sp.1 sp.2 e.known e.op).1.st e.impl).2 = []
+
+/-- Every choice along the run was admissible. -/
+def drunAdmissible : St × Parked → List Ev → Prop
+  | _, [] => True
+  | sp, e :: evs => e.admissible sp ∧ drunAdmissible (dstep sp e) evs
+
+theorem dstep_life (sp : St × Parked) (e : Ev) (h : Life sp.1) (ha : e.admissible sp) : Life (dstep sp e).1 := by
+  unfold dstep
+  exact reconcileIdl_life _ _ (reconcile_life _ _ (step_life sp.1 sp.2 e.known e.op h) ha)
+
+theorem drun_life (evs : List Ev) (sp : St × Parked) (h : Life sp.1) (ha : drunAdmissible sp evs) :
+    Life (drun sp evs).1 := by
+  induction evs generalizing sp with
+  | nil => exact h
+  | cons e evs ih => exact ih _ (dstep_life sp e h ha.1) ha.2
+
+/-- Stopped means clean: nothing connected, nothing running, no handle open. -/
+theorem Life.stopped_clean {s : St} (h : Life s) (hs : s.status = .stopped) :
+    s.peers = [] ∧ s.dls = [] ∧ s.idls = [] ∧ s.openFiles = [] ∧ s.leaked = 0 ∧
+    s.allocator = false ∧ s.verifier = false ∧ s.acceptor = false := by
+  obtain ⟨i1, i2, i3, i4, i5, i6, i7, i8⟩ := h.idle (Or.inl ((status_stopped_iff s).1 hs))
+  exact ⟨i6, i7, i8, i5, h.leaked, i1, i2, i4⟩
+
+/-- Downloading or seeding means the pieces are loaded and every file is there. -/
+theorem Life.files_of_running {s : St} (h : Life s)
+    (hs : s.status = .downloading ∨ s.status = .seeding) : s.loaded = true ∧ FilesExist s ∧ s.info = true := by
+  have key : s.errC = true ∧ s.stopAnn = false ∧ s.allocator = false ∧ (s.info = true ∨ s.completed = true) := by
+    unfold St.status at hs
+    rcases hs with hs | hs
+    all_goals
+      repeat' split at hs
+      all_goals first | (cases hs; done) | simp_all
+  obtain ⟨he, hsa, hal, hic⟩ := key
+  have hinfo : s.info = true := by
+    rcases hic with hi | hc
+    · exact hi
+    · cases hi : s.info
+      · have := (h.ni hi).2.2.2.1; rw [hc] at this; cases this
+      · rfl
+  have hl := h.run he hsa hal hinfo
+  exact ⟨hl, h.fe hl, hinfo⟩
+
 end Rain.Loop
